@@ -58,23 +58,25 @@ func vhC16Rules(key string, rules Rules, in string) {
 	vReach("round-trip")
 }
 
-func VH_C16_Literal()        { vhC16Rules("Literal", vhDefLiteral(), vhInput()) }
-func VH_C16_PushPop()        { vhC16Rules("PushPop", vhDefPushPop(), vhInput()) }
-func VH_C16_String()         { vhC16Rules("String", vhDefString(), vhInput()) }
-func VH_C16_Return()         { vhC16Rules("Return", vhDefReturn(), vhInput()) }
-func VH_C16_ReturnNested()   { vhC16Rules("ReturnNested", vhDefReturnNested(), vhInput()) }
-func VH_C16_IncludeFirst()   { vhC16Rules("IncludeFirst", vhDefIncludeFirst(), vhInput()) }
-func VH_C16_IncludeMiddle()  { vhC16Rules("IncludeMiddle", vhDefIncludeMiddle(), vhInput()) }
-func VH_C16_IncludeNested()  { vhC16Rules("IncludeNested", vhDefIncludeNested(), vhInput()) }
-func VH_C16_IncludeDiamond() { vhC16Rules("IncludeDiamond", vhDefIncludeDiamond(), vhInput()) }
-func VH_C16_Astral()         { vhC16Rules("Astral", vhDefAstral(), vhInput()) }
-func VH_C16_OddNames()       { vhC16Rules("OddNames", vhDefOddNames(), vhInput()) }
-func VH_C16_ElidedActions()  { vhC16Rules("ElidedActions", vhDefElidedActions(), vhInput()) }
-func VH_C16_Backref()        { vhC16Rules("Backref", vhDefBackref(), vhInputASCII()) }
-func VH_C16_BackrefQuoted()  { vhC16Rules("BackrefQuoted", vhDefBackrefQuoted(), vhInputASCII()) }
-func VH_C16_Multibyte()      { vhC16Rules("Multibyte", vhDefMultibyte(), vhInput()) }
-func VH_C16_NonASCIILit()    { vhC16Rules("NonASCIILit", vhDefNonASCIILit(), vhInput()) }
-func VH_C16_Classes()        { vhC16Rules("Classes", vhDefClasses(), vhInput()) }
+func VH_C16_Literal()         { vhC16Rules("Literal", vhDefLiteral(), vhInput()) }
+func VH_C16_PushPop()         { vhC16Rules("PushPop", vhDefPushPop(), vhInput()) }
+func VH_C16_String()          { vhC16Rules("String", vhDefString(), vhInput()) }
+func VH_C16_Return()          { vhC16Rules("Return", vhDefReturn(), vhInput()) }
+func VH_C16_ReturnNested()    { vhC16Rules("ReturnNested", vhDefReturnNested(), vhInput()) }
+func VH_C16_IncludeFirst()    { vhC16Rules("IncludeFirst", vhDefIncludeFirst(), vhInput()) }
+func VH_C16_IncludeMiddle()   { vhC16Rules("IncludeMiddle", vhDefIncludeMiddle(), vhInput()) }
+func VH_C16_IncludeNested()   { vhC16Rules("IncludeNested", vhDefIncludeNested(), vhInput()) }
+func VH_C16_IncludeDiamond()  { vhC16Rules("IncludeDiamond", vhDefIncludeDiamond(), vhInput()) }
+func VH_C16_Astral()          { vhC16Rules("Astral", vhDefAstral(), vhInput()) }
+func VH_C16_OddNames()        { vhC16Rules("OddNames", vhDefOddNames(), vhInput()) }
+func VH_C16_NonASCIINames()   { vhC16Rules("NonASCIINames", vhDefNonASCIINames(), vhInput()) }
+func VH_C16_BackrefOptGroup() { vhC16Rules("BackrefOptGroup", vhDefBackrefOptGroup(), vhInputASCII()) }
+func VH_C16_ElidedActions()   { vhC16Rules("ElidedActions", vhDefElidedActions(), vhInput()) }
+func VH_C16_Backref()         { vhC16Rules("Backref", vhDefBackref(), vhInputASCII()) }
+func VH_C16_BackrefQuoted()   { vhC16Rules("BackrefQuoted", vhDefBackrefQuoted(), vhInputASCII()) }
+func VH_C16_Multibyte()       { vhC16Rules("Multibyte", vhDefMultibyte(), vhInput()) }
+func VH_C16_NonASCIILit()     { vhC16Rules("NonASCIILit", vhDefNonASCIILit(), vhInput()) }
+func VH_C16_Classes()         { vhC16Rules("Classes", vhDefClasses(), vhInput()) }
 
 const vhC16Generated = 40 // @tier quick=40 thorough=400
 
